@@ -1284,10 +1284,21 @@ namespace chaiscript {
           } else if (catch_block.children.size() == 2 || catch_block.children.size() == 3) {
             const auto name = Arg_List_AST_Node<T>::get_arg_name(*catch_block.children[0]);
 
-            if (dispatch::Param_Types(
-                    std::vector<std::pair<std::string, Type_Info>>{Arg_List_AST_Node<T>::get_arg_type(*catch_block.children[0], t_ss)})
-                    .match(Function_Params{t_except}, t_ss.conversions())
-                    .first) {
+            const dispatch::Param_Types clause_type(
+                std::vector<std::pair<std::string, Type_Info>>{Arg_List_AST_Node<T>::get_arg_type(*catch_block.children[0], t_ss)});
+            const auto matched = clause_type.match(Function_Params{t_except}, t_ss.conversions());
+
+            if (matched.first) {
+              if (matched.second) {
+                // The clause names a type that is only related to the exception's static type (a base or
+                // a derived class). As for a typed function parameter, it accepts the exception only
+                // if the object really converts, i.e. if its dynamic type is the named one.
+                try {
+                  clause_type.convert(Function_Params{t_except}, t_ss.conversions());
+                } catch (const std::bad_cast &) {
+                  continue;
+                }
+              }
               t_ss.add_object(name, t_except);
 
               if (catch_block.children.size() == 2) {
